@@ -11,11 +11,13 @@
 (*   [ty |-> "set", s |-> set of bytes]                                    *)
 (*   [ty |-> "zset", z |-> set of [m |-> bytes, s |-> Int]]                *)
 (* Scores are integers (TLC has no floats); bounds may be -inf/+inf.       *)
-(* Every entry also has x: the time to live in seconds as it was last set  *)
-(* (0 = the key is persistent).  Time does not pass in the model: a TTL    *)
-(* reply is compared with a window (cmp "alt": x - 3 .. x), and programs   *)
-(* use expiries far longer than a run.  What the model does state is which *)
-(* commands keep, clear, set or move a key's expiry.                       *)
+(* Every entry also has x: the key's remaining time to live in            *)
+(* milliseconds (0 = persistent) as of the model's clock.  The model clock *)
+(* only advances by the scripted pauses of a program (Advance); real time  *)
+(* runs ahead of it by at most Slack, so a TTL reply is compared with a    *)
+(* window and programs keep deadlines either well inside a pause or far    *)
+(* beyond the run.  The model states which commands keep, clear, set or    *)
+(* move a key's expiry and that an expired key is gone for every command.  *)
 (*                                                                         *)
 (* Exec(ks, name, args) = [reply, ks, cmp]; cmp says how the observed      *)
 (* reply is compared: "exact", "bag" (array in any order), "pairs"         *)
@@ -30,6 +32,11 @@ XOf(ks, k) == IF Has(ks, k) THEN ks[k].x ELSE 0
 WithX(e, x) == [f \in DOMAIN e \cup {"x"} |-> IF f = "x" THEN x ELSE e[f]]
 PutX(ks, k, e, x) == [y \in DOMAIN ks \cup {k} |-> IF y = k THEN WithX(e, x) ELSE ks[y]]
 Put(ks, k, e) == PutX(ks, k, e, XOf(ks, k))       \* modifying a key keeps its time to live
+Slack == 4000                                     \* real time may be ahead of the model clock by this many ms
+\* the model clock advances by ms: keys whose time to live has run out are gone
+Advance(ks, ms) == [k \in {y \in DOMAIN ks : ks[y].x = 0 \/ ks[y].x > ms} |-> IF ks[k].x = 0 THEN ks[k] ELSE [ks[k] EXCEPT !.x = @ - ms]]
+\* TTL in seconds for a remaining time of x ms: rounding is the server's business, real time may be Slack ahead
+TTLWindow(x) == {n \in ((x - Slack) \div 1000)..((x + 500) \div 1000) : n >= 0}
 Drop(ks, k) == [x \in DOMAIN ks \ {k} |-> ks[x]]
 IsTy(ks, k, ty) == Has(ks, k) /\ ks[k].ty = ty
 
@@ -207,10 +214,10 @@ Exec(ks, name, args) ==
          Res(GetReply(ks, A(args, 1)), StrSet(ks, A(args, 1), A(args, 2)))
     [] name = "SET" /\ n = 3 /\ args[3].k = "word" /\ args[3].w = "KEEPTTL" ->
          Res(Str(<<79, 75>>), StrSetX(ks, A(args, 1), A(args, 2), XOf(ks, A(args, 1))))
-    [] name = "SET" /\ n = 4 /\ args[3].k = "word" /\ args[3].w = "EX" /\ IsInt(args[4]) /\ args[4].big = "" /\ args[4].n > 0 ->
-         Res(Str(<<79, 75>>), StrSetX(ks, A(args, 1), A(args, 2), args[4].n))
-    [] name = "SETEX" /\ n = 3 /\ IsInt(args[2]) /\ args[2].big = "" /\ args[2].n > 0 ->
-         Res(Str(<<79, 75>>), StrSetX(ks, A(args, 1), A(args, 3), args[2].n))
+    [] name = "SET" /\ n = 4 /\ args[3].k = "word" /\ args[3].w \in {"EX", "PX"} /\ IsInt(args[4]) /\ args[4].big = "" /\ args[4].n > 0 /\ args[4].n < 1000000 ->
+         Res(Str(<<79, 75>>), StrSetX(ks, A(args, 1), A(args, 2), IF args[3].w = "EX" THEN args[4].n * 1000 ELSE args[4].n))
+    [] name = "SETEX" /\ n = 3 /\ IsInt(args[2]) /\ args[2].big = "" /\ args[2].n > 0 /\ args[2].n < 1000000 ->
+         Res(Str(<<79, 75>>), StrSetX(ks, A(args, 1), A(args, 3), args[2].n * 1000))
     [] name = "GETSET" /\ n = 2 /\ TypeOK(ks, A(args, 1), "string") -> Res(GetReply(ks, A(args, 1)), StrSet(ks, A(args, 1), A(args, 2)))
     [] name = "SETNX" /\ n = 2 -> IF Has(ks, A(args, 1)) THEN Res(IntR(0), ks) ELSE Res(IntR(1), StrSet(ks, A(args, 1), A(args, 2)))
     [] name = "MSET" /\ n >= 2 /\ n % 2 = 0 -> Res(Str(<<79, 75>>), SetPairs(ks, args, 1))
@@ -246,8 +253,9 @@ Exec(ks, name, args) ==
          ELSE Res(IntR(1), PutX(Drop(ks, A(args, 1)), A(args, 2), ks[A(args, 1)], ks[A(args, 1)].x))
     \* expiry.  EXPIRE key seconds [NX | XX | GT | LT]: a non-positive time deletes the key; a persistent key counts as
     \* an infinite time to live for GT / LT
-    [] name = "EXPIRE" /\ n \in {2, 3} /\ IsInt(args[2]) /\ args[2].big = "" /\ (n = 3 => args[3].k = "word" /\ args[3].w \in {"NX", "XX", "GT", "LT"}) ->
-         LET k == A(args, 1) t == args[2].n cur == XOf(ks, k) w == IF n = 3 THEN args[3].w ELSE "" IN
+    [] name = "EXPIRE" /\ n \in {2, 3} /\ IsInt(args[2]) /\ args[2].big = "" /\ args[2].n < 1000000 /\ args[2].n > 0 - 1000000
+                       /\ (n = 3 => args[3].k = "word" /\ args[3].w \in {"NX", "XX", "GT", "LT"}) ->
+         LET k == A(args, 1) t == args[2].n * 1000 cur == XOf(ks, k) w == IF n = 3 THEN args[3].w ELSE "" IN
          IF ~Has(ks, k) THEN Res(IntR(0), ks)
          \* the same number of seconds as the current expiry under GT / LT: whether the new deadline is later depends on
          \* the clock's resolution; either answer, and the expiry is t in both cases
@@ -259,7 +267,7 @@ Exec(ks, name, args) ==
     [] name = "TTL" /\ n = 1 ->
          IF ~Has(ks, A(args, 1)) THEN Res(IntR(0 - 2), ks)
          ELSE IF XOf(ks, A(args, 1)) = 0 THEN Res(IntR(0 - 1), ks)
-         ELSE [reply |-> IntR(XOf(ks, A(args, 1))), ks |-> ks, cmp |-> "alt", alt |-> {IntR(XOf(ks, A(args, 1)) - d) : d \in 1..3}]
+         ELSE [reply |-> IntR((XOf(ks, A(args, 1)) + 500) \div 1000), ks |-> ks, cmp |-> "alt", alt |-> {IntR(t) : t \in TTLWindow(XOf(ks, A(args, 1)))}]
     [] name = "KEYS" /\ n = 1 -> ResC(BulkArr(SetToSeq({k \in DOMAIN ks : Match(A(args, 1), k)})), ks, "bag")
     \* one complete SCAN call (cursor 0, COUNT larger than the keyspace): the selected keys; the cursor value is not judged
     [] name = "SCAN" /\ n = 5 /\ IsInt(args[1]) /\ args[1].big = "" /\ args[1].n = 0 /\ args[2].k = "word" /\ args[2].w = "MATCH"
@@ -365,6 +373,6 @@ ReplyMatches(r, v) ==
     [] r.cmp = "pairs" -> v.t = "arr" /\ Len(v.e) = Len(r.reply.e) /\ PairsOf(v) = PairsOf(r.reply)
     [] r.cmp = "scan"  -> /\ v.t = "arr" /\ Len(v.e) = 2 /\ v.e[1].t = "bulk" /\ v.e[2].t = "arr"
                           /\ Len(v.e[2].e) = Len(r.reply.e[2].e) /\ BagOf(v.e[2]) = BagOf(r.reply.e[2])
-    [] r.cmp = "alt"   -> v = r.reply \/ v \in r.alt    \* TTL: a few seconds may have passed since the expiry was set
+    [] r.cmp = "alt"   -> v = r.reply \/ v \in r.alt    \* TTL: real time runs ahead of the model clock
     [] OTHER -> TRUE
 =============================================================================
